@@ -47,6 +47,13 @@ def host():
     return _HOST[pid]
 
 
+def host_alt():
+    """a second loopback address of this process, different from host(): for two servers that share a port number"""
+    pid = os.getpid()
+    ip = "127.%d.%d.%d" % (201 + (pid >> 16) % 50, (pid >> 8) & 255, 1 + (pid & 255) % 254)
+    return ip if ip != host() and _probe(ip) else None
+
+
 def listen_ports(n=40):
     """candidate listen ports for a server that has to sit on 127.0.0.1 itself (TLS certificates issued for
     localhost): below the kernel's ephemeral range, so neither a connecting socket nor another worker's
